@@ -259,7 +259,11 @@ func (v *JV) enc(b *bytes.Buffer, st *EncStyle, depth int) {
 					b.WriteByte(',')
 				}
 				st.ws(b)
-				writeJSONString(b, fmt.Sprintf("zz_null_%d_%d", depth, i), st)
+				name := fmt.Sprintf("zz_null_%d_%d", depth, i)
+				if st.R.IntN(2) == 0 {
+					name = "!" + name // sorts before every other member
+				}
+				writeJSONString(b, name, st)
 				b.WriteString(":null")
 				n++
 			}
@@ -339,15 +343,15 @@ func writeJSONString(b *bytes.Buffer, s string, st *EncStyle) {
 		switch {
 		case r == '"':
 			if style == 1 {
-				b.WriteString(`"`)
+				b.WriteString("\\u0022")
 			} else {
 				b.WriteString(`\"`)
 			}
 		case r == '\\':
 			if style == 1 {
-				b.WriteString(`\`)
+				b.WriteString("\\u005c")
 			} else {
-				b.WriteString(`\\`)
+				b.WriteString("\\\\")
 			}
 		case r == '\n' && style != 1:
 			b.WriteString(`\n`)
